@@ -402,10 +402,10 @@ impl HttpServer {
                         self.socket
                             .accept()
                             .map_err(ServerError::IOError)
-                            .and_then(move |(mut stream, _)| {
-                                stream
-                                    .write(SERVER_FULL_ERROR_MESSAGE)
-                                    .map_err(ServerError::IOError)
+                            .map(move |(mut stream, _)| {
+                                // The refused client may be gone already; failing to tell it
+                                // must not fail the whole call.
+                                let _ = stream.write(SERVER_FULL_ERROR_MESSAGE);
                             })?;
                     }
                     // An internal error will compromise any in-flight requests.
